@@ -92,7 +92,7 @@ def ycbcrToRGB (y cb cr : Nat) : Nat × Nat × Nat :=
   let yy1 : Int := (y : Int) * 0x10101
   let cb1 : Int := (cb : Int) - 128
   let cr1 : Int := (cr : Int) - 128
-  let sh := fun (v : Int) => Int.fdiv v 65536
+  let sh := fun (v : Int) => v / 65536     -- `>> 16` on int32: floor division
   let c8 := fun (v : Int) => if v < 0 then 0 else if v > 255 then 255 else v.toNat
   (c8 (sh (yy1 + 91881 * cr1)), c8 (sh (yy1 - 22554 * cb1 - 46802 * cr1)), c8 (sh (yy1 + 116130 * cb1)))
 
@@ -101,7 +101,7 @@ def ycbcrRGBA (y cb cr : Nat) : Px :=
   let yy1 : Int := (y : Int) * 0x10101
   let cb1 : Int := (cb : Int) - 128
   let cr1 : Int := (cr : Int) - 128
-  let sh := fun (v : Int) => Int.fdiv v 256
+  let sh := fun (v : Int) => v / 256       -- `>> 8`: floor division
   let c16 := fun (v : Int) => if v < 0 then 0 else if v > 0xffff then 0xffff else v.toNat
   ⟨c16 (sh (yy1 + 91881 * cr1)), c16 (sh (yy1 - 22554 * cb1 - 46802 * cr1)), c16 (sh (yy1 + 116130 * cb1)), 0xffff⟩
 
